@@ -1405,6 +1405,34 @@ def UpperAr (r : Nat) : (l : Nat) → List Nat → Tree (List α) ν (r + 2 + l)
   | l + 1, a :: ar, f => ∀ e ∈ (show List (List α × Tree (List α) ν (r + 2 + l)) from f),
       e.1.length = a ∧ UpperAr r l ar e.2
 
+def upperArB (r : Nat) : (l : Nat) → List Nat → Tree (List α) ν (r + 2 + l) → Bool
+  | _, [], _ => false
+  | 0, a :: _, f => (show List (List α × Tree (List α) ν (r + 1)) from f).all (fun e => e.1.length == a)
+  | l + 1, a :: ar, f => (show List (List α × Tree (List α) ν (r + 2 + l)) from f).all
+      (fun e => e.1.length == a && upperArB r l ar e.2)
+
+theorem upperArB_iff (r : Nat) : ∀ (l : Nat) (ar : List Nat) (f : Tree (List α) ν (r + 2 + l)),
+    upperArB r l ar f = true ↔ UpperAr r l ar f
+  | 0, [], _ => by simp [upperArB, UpperAr]
+  | _ + 1, [], _ => by simp [upperArB, UpperAr]
+  | 0, a :: _, f => by
+    unfold upperArB UpperAr
+    rw [List.all_eq_true]
+    constructor
+    · intro h e he; simpa using h e he
+    · intro h e he; simpa using h e he
+  | l + 1, a :: ar, f => by
+    unfold upperArB UpperAr
+    rw [List.all_eq_true]
+    constructor
+    · intro h e he
+      have := h e he
+      rw [Bool.and_eq_true] at this
+      exact ⟨by simpa using this.1, (upperArB_iff r l ar e.2).1 this.2⟩
+    · intro h e he
+      rw [Bool.and_eq_true]
+      exact ⟨by simpa using (h e he).1, (upperArB_iff r l ar e.2).2 (h e he).2⟩
+
 def tupleComb : Nat → List α → List α → List α := fun _ a b => a ++ b
 
 /-- **tuple / pair styles never collide**: on a well-formed tree whose ranks hold coordinates
@@ -1506,6 +1534,27 @@ theorem splitTop_joinTop : ∀ (l : Nat) (p : List (List α)), l + 2 ≤ p.lengt
         rw [hj]
         show [a] :: splitTop _ _ l (x :: rest') = _
         rw [ih.1]
+
+/-- the top two ranks hold integer coordinates -/
+def Int2 (r : Nat) (f : Tree (List α) ν (r + 2)) : Prop :=
+  ∀ e ∈ (show List (List α × Tree (List α) ν (r + 1)) from f), e.1.length = 1 ∧
+    ∀ x ∈ (show List (List α × Tree (List α) ν r) from e.2), x.1.length = 1
+
+def int2B (r : Nat) (f : Tree (List α) ν (r + 2)) : Bool :=
+  (show List (List α × Tree (List α) ν (r + 1)) from f).all (fun e => e.1.length == 1 &&
+    (show List (List α × Tree (List α) ν r) from e.2).all (fun x => x.1.length == 1))
+
+theorem int2B_iff (r : Nat) (f : Tree (List α) ν (r + 2)) : int2B r f = true ↔ Int2 r f := by
+  unfold int2B Int2
+  rw [List.all_eq_true]
+  constructor
+  · intro h e he
+    have := h e he
+    rw [Bool.and_eq_true, List.all_eq_true] at this
+    exact ⟨by simpa using this.1, fun x hx => by simpa using this.2 x hx⟩
+  · intro h e he
+    rw [Bool.and_eq_true, List.all_eq_true]
+    exact ⟨by simpa using (h e he).1, fun x hx => by simpa using (h e he).2 x hx⟩
 
 end coordtree
 
